@@ -411,6 +411,7 @@ def run(rec, shard, nshards, t):
     if shard == 0:
         exact_aggregates(rec, ep)
         exact_comparisons(rec, ep)
+        repeated_evaluations(rec, ep)
         doc = [('split("-", 0)', {'description': 'ACH-OUT-123'}, 'ACH'), ('substring(0, 4)', {'description': 'AMZN*MARKET'}, 'AMZN'),
                ('trim()', {'description': '  AMAZON  '}, 'AMAZON'), ('extract("REF:(\\\\d+)")', {'description': 'REF:12345'}, '12345'),
                ('regex_replace(field.description, "^APLPAY\\\\s+", "")', {'description': 'APLPAY STARBUCKS'}, 'STARBUCKS'),
@@ -461,6 +462,42 @@ def exact_comparisons(rec, ep):
             rec.violation('exact-comparison:differs-from-python', f'{e} with amount={txn["amount"]!r}: tally {got!r}, Python {want!r}', {'kind': 'exact'})
 
 
+def repeated_evaluations(rec, ep):
+    """The SAME expression text evaluated for one transaction after another, and generators bound with `:=`: each evaluation reads the values of ITS transaction /
+    row (a date compared with a date WRITTEN IN A COLUMN is compared with that row's text), and a bound generator is Python's generator (lazy, consumed once, truthy)."""
+    from datetime import date as _d
+    rows = {'orders': [{'item': 'A', 'shipped': '2025-01-10', 'amt': 12.0}, {'item': 'B', 'shipped': '2025-03-01', 'amt': 80.0}, {'item': 'C', 'shipped': '2025-02-01', 'amt': 5.0}], 'none': []}
+    seq = [({'due': '2025-01-31', 'lo': '2025-01-01', 'hi': '2025-01-31'}, _d(2025, 2, 15)), ({'due': '2025-03-31', 'lo': '2025-02-01', 'hi': '2025-02-28'}, _d(2025, 2, 15)),
+           ({'due': '2025-02-15', 'lo': '2025-03-01', 'hi': '2025-03-31'}, _d(2025, 2, 15)), ({'due': '2024-12-31', 'lo': '2025-02-15', 'hi': '2025-02-15'}, _d(2025, 2, 15))]
+    probes = [('date > field.due', lambda f, d: d > _d.fromisoformat(f['due'])), ('date <= field.due', lambda f, d: d <= _d.fromisoformat(f['due'])),
+              ('field.lo <= date and date <= field.hi', lambda f, d: _d.fromisoformat(f['lo']) <= d <= _d.fromisoformat(f['hi'])),
+              ('date >= field.lo', lambda f, d: d >= _d.fromisoformat(f['lo'])),
+              ('len([r.item for r in orders if date >= r.shipped])', lambda f, d: len([r for r in rows['orders'] if d >= _d.fromisoformat(r['shipped'])])),
+              ('len([r.item for r in orders if txn.date < r.shipped]) == 1', lambda f, d: len([r for r in rows['orders'] if d < _d.fromisoformat(r['shipped'])]) == 1)]
+    for e, py in probes:
+        for k, (f, d) in enumerate(seq):
+            rec.count('repeated_evaluation_checks')
+            try:
+                got = ep.evaluate_transaction(e, {'description': 'x', 'amount': 5.0, 'date': d, 'field': dict(f), 'source': 's'}, {}, {k2: [dict(r) for r in v] for k2, v in rows.items()})
+            except Exception as ex:
+                got = 'raises %s' % type(ex).__name__
+            want = py(f, d)
+            if got != want or type(got) is not type(want):
+                rec.violation('value-depends-on-earlier-evaluations', f'{e!r}, transaction #{k} of a sequence (date {d}, field {f}): tally {got!r}, Python {want!r}', {'kind': 'repeated'})
+                break
+    gens = [('(g := (r.amt for r in orders if r.amt > 1e9)) and true', True), ('next((g := (r.amt for r in orders))) == 12.0', True),
+            ('any((g := (r.amt > 50 for r in orders))) and not any(g)', True), ('(g := (r.amt for r in orders)) and next(g) + next(g) == 92.0', True),
+            ('sum((g := (r.amt for r in orders))) == 97.0 and sum(g) == 0', True), ('not (g := (r for r in none))', False)]
+    for e, want in gens:
+        rec.count('repeated_evaluation_checks')
+        try:
+            got = ep.evaluate_transaction(e, {'description': 'x', 'amount': 5.0, 'field': None, 'source': 's'}, {}, {k2: [dict(r) for r in v] for k2, v in rows.items()})
+        except Exception as ex:
+            got = 'raises %s: %s' % (type(ex).__name__, ex)
+        if got is not want:
+            rec.violation('bound-generator-differs-from-python', f'{e!r}: tally {got!r}, Python {want!r}', {'kind': 'repeated'})
+
+
 def exact_aggregates(rec, ep):
     """sum/min/max/len over supplemental rows give EXACTLY what the same Python construct gives (bit for bit: the documented idiom is
     `sum(r.amount for r in orders) == txn.amount`, and this interpreter's sum() is the one the user reads about)."""
@@ -491,9 +528,10 @@ def exact_aggregates(rec, ep):
 def replay(rec, case):
     core.import_tally()
     from tally import expr_parser as ep
-    if case['kind'] == 'exact':
+    if case['kind'] in ('exact', 'repeated'):
         exact_aggregates(rec, ep)
         exact_comparisons(rec, ep)
+        repeated_evaluations(rec, ep)
         return
     if case['kind'] == 'varseq':
         rnd = core.rng_for('C04', 'replay')
